@@ -67,11 +67,19 @@ static bool verify(polyseed_data* s, const pv_mseed* m, pv_rng* rng, const char*
 }
 
 /* one application; returns false on KDF-argument mismatch.  The model is advanced with the mask the monitor returned. */
+static pv_rng* g_rng;
 static bool apply(polyseed_data* s, pv_mseed* m, const char* pw, const char* pwcls) {
+    /* the password operation must not depend on which user features happen to be enabled right now: in a third of
+     * the applications the process-wide mask is different while it runs (the seed keeps its feature bits) */
+    bool other = g_rng && pv_randn(g_rng, 3) == 0;
+    if (other) { polyseed_enable_features(pv_randn(g_rng, 7)); PV_COUNT("crypt.under_a_different_feature_mask", 1); }      /* raw calls: the per-call event log of crypt must survive */
     pv_api_crypt(s, pw);
+    int nk_ev = pv_ev_count(PV_EV_KDF);
+    if (other) polyseed_enable_features(7);
+    (void)nk_ev;
     PV_COUNT("evaluations", 1); pv_countf(1, "crypt.password.%s", pwcls);
     bool ok = true;
-    if (pv_ev_count(PV_EV_KDF) != 1 || pv_w->nkdf != 1) { pv_violation("C12/kdf-call-count", "crypt invoked the KDF %d times", pv_ev_count(PV_EV_KDF)); return false; }
+    if (nk_ev != 1 || pv_w->nkdf != 1) { pv_violation("C12/kdf-call-count", "crypt invoked the KDF %d times", nk_ev); return false; }
     pv_kdfrec* r = &pv_w->kdf[0];
     char* nf = pv_nfkd_alloc(pw); size_t nl = strlen(nf);
     if (r->pwlen != nl) { ok = false; pv_violation(r->pwlen == nl + 1 ? "C12/password-length-includes-terminator" : "C12/password-length", "[%s] password '%s': KDF password length %zu, NFKD form has %zu bytes", pwcls, pv_esc(pw), r->pwlen, nl); }
@@ -87,6 +95,7 @@ static bool apply(polyseed_data* s, pv_mseed* m, const char* pw, const char* pwc
 
 static uint64_t n_crypt(void) { return pv_scaled(25000, 600000); }
 static void run_crypt(uint64_t idx, pv_rng* rng) {
+    g_rng = rng;
     pv_mseed m0; pv_gen_mseed(rng, 7, true, &m0);
     polyseed_data* s = pv_seed_from_model(&m0);
     if (!s) { pv_violation("C12/load-failed", "%s", pv_mseed_str(&m0)); return; }
